@@ -1,6 +1,7 @@
 package minersc
 
 import (
+	"0chain.net/core/sortedmap"
 	"encoding/json"
 	"fmt"
 	"strings"
@@ -63,7 +64,10 @@ func (gl *GlobalSettings) save(balances cstate.StateContextI) error {
 
 func (gl *GlobalSettings) update(inputMap config2.StringMap) error {
 	var err error
-	for key, value := range inputMap.Fields {
+	// sorted keys: with several invalid entries the reported error (the transaction output, which all
+	// nodes must agree on) would otherwise depend on Go's random map iteration order
+	for _, key := range sortedmap.NewFromMap(inputMap.Fields).GetKeys() {
+		value := inputMap.Fields[key]
 		info, found := config2.GlobalSettingInfo[key]
 		if !found {
 			return fmt.Errorf("'%s' is not a valid global setting", key)
